@@ -42,6 +42,9 @@ HARNESSES = [
     dict(name="race", pkg="pkg/util/circuitbreaker", files=["harness/circuitbreaker/zz_verif_c08_test.go",
                                                             "harness/circuitbreaker/zz_verif_c08_race_test.go"],
          run="TestVerifC08Race", groups=["race"], timeout=600, share=0.08),
+    dict(name="burst", pkg="pkg/util/circuitbreaker", files=["harness/circuitbreaker/zz_verif_c08_test.go",
+                                                             "harness/circuitbreaker/zz_verif_c08_burst_test.go"],
+         run="TestVerifC08Burst", groups=["burst"], timeout=600, share=0.004),
     dict(name="lin", pkg="pkg/util/circuitbreaker", files=["harness/circuitbreaker/zz_verif_c08_test.go"],
          run="TestVerifC08Lin", groups=["lin"], timeout=900, share=0.02, thorough_only=True, race=True),
     dict(name="wrap", pkg="pkg/resilience", files=["harness/resilience/zz_verif_c08_wrap_test.go"],
@@ -51,8 +54,8 @@ HARNESSES = [
          run="TestVerifC08Proxy", groups=["pool"], timeout=600, share=0.1,
          extra_overlay={"pkg/util/circuitbreaker/zz_verif_c08_hook.go": "harness/circuitbreaker/zz_verif_c08_hook.go"}),
 ]
-GROUPS = {"cb": "check_cb", "wrap": "check_wrapm", "pool": "check_poolm", "lin": "check_lin", "race": "check_lin"}
-EXPLAIN = {"cb": "explain_cb", "wrap": "explain_wrapm", "pool": "explain_poolm", "lin": "explain_lin", "race": "explain_lin"}
+GROUPS = {"cb": "check_cb", "wrap": "check_wrapm", "pool": "check_poolm", "lin": "check_lin", "race": "check_lin", "burst": "check_burst"}
+EXPLAIN = {"cb": "explain_cb", "wrap": "explain_wrapm", "pool": "explain_poolm", "lin": "explain_lin", "race": "explain_lin", "burst": "explain_burst"}
 CASES = {"quick": 1600, "thorough": 20000}
 RULE = ("cases: random policies (thresholds 1..100, count/time window 1..12, minimum 0..12, permitted 0..6, wait/maxWait/slow durations) "
         "x histories of acquire / record(success|failure|slow, own, stale or foreign id) / clock advance (none, sub-second, second "
@@ -100,7 +103,7 @@ def _pol(p):
                p_min=Z(p["min"]), p_slowdur=Z(p["slowdur"]), p_maxwait=Z(p["maxwait"]), p_wait=Z(p["wait"]))
 
 
-_HOUT = {0: "HOk", 1: "HErr", 2: "HPanic"}
+_HOUT = {0: "HOk", 1: "HErr", 2: "HPanic", 3: "HPanicNil", 4: "HGoexit"}
 _CX = {0: "CLive", 1: "CCancelledBefore", 2: "CCancelledDuring", 3: "CDeadline"}
 
 
@@ -129,6 +132,21 @@ def encode(c):
                 ops.append(C("ORec", Z(now), Z(used), B(op["err"]), Z(op["dur"])))
         return Rec(k_pol=_pol(i["pol"]), k_t0=Z(i["t0"]), k_ops=L(ops),
                    k_obs=L([T(Z(s[0]), Z(s[1]), Z(s[2])) for s in steps]))
+    if g == "burst":
+        steps = o["steps"] or []
+        ops = []
+        now = i["t0"]
+        for k, op in enumerate(i["ops"] or []):
+            now += op["dt"]
+            used = steps[k][3] if k < len(steps) else 0
+            if op["k"] == 0:
+                ops.append(C("BOp", C("OAcq", Z(now))))
+            elif op["k"] == 1:
+                ops.append(C("BOp", C("ORec", Z(now), Z(used), B(op["err"]), Z(op["dur"]))))
+            else:
+                ops.append(C("BBurst", Z(now), Z(used), Z(op["n"])))
+        return Rec(u_pol=_pol(i["pol"]), u_t0=Z(i["t0"]), u_ops=L(ops),
+                   u_obs=L([T(Z(s[0]), Z(s[1]), Z(s[2])) for s in steps]))
     if g == "wrap":
         calls, now = [], i["t0"]
         for cl in i["calls"] or []:
@@ -186,7 +204,7 @@ def distribution(cases):
 
 
 def shrink_candidates(inp, grp):
-    if grp in ("lin", "race"):
+    if grp in ("lin", "race", "burst"):
         return
     key = {"cb": "ops", "wrap": "calls", "pool": "reqs"}[grp]
     ops = inp.get(key) or []
